@@ -8,7 +8,8 @@ EXPLANATION = (
     "RNG, and every sampling call in des draws from runtime::rng(); (R2) every tokio runtime built by des gets an rng_seed "
     "derived from runtime::random (select! branch choice); (R3) no unseeded nondeterminism API (wall clock, threads, "
     "environment, RandomState-hashed iteration, pointer-to-integer casts) is used outside runtime::bench and the allocator; "
-    "(R4) every static/thread-local of the workspace is in the audited table with its reset point. "
+    "(R4) every static/thread-local of the workspace is in the audited table with its reset point; (R5) values drawn from the "
+    "never-reset identity counters never key a hashed collection that is iterated (field/closure-sensitive taint). "
     "Decides these necessary conditions only; not equality of two observable traces.")
 ASSUMPTIONS = ["tokio's scheduler is deterministic given rng_seed and a current-thread runtime", "StdRng is deterministic given its seed"]
 
